@@ -41,7 +41,7 @@ def cfg_text(c, gen=True, invariants=(), properties=(), constraint=None, view="G
        c["maxhold"], ", ".join(str(x) for x in c["clients"]), b(c["passive"]), b(c["active"]), b(c["admin"]),
        b(c["mark"]), b(c.get("badops", False)), ", ".join('"%s"' % o for o in c["outcomes"]))
     if gen:
-        t += "INIT MCInit\nNEXT MCNext\nVIEW %s\nINVARIANTS EmitInit\nACTION_CONSTRAINT Emit\n" % view
+        t += "INIT MCInit\nNEXT GenNext\nVIEW %s\nINVARIANTS EmitInit\nACTION_CONSTRAINT Emit\n" % view
     else:
         t += "INIT MCInit\nNEXT MCNext\nVIEW View\n"
         if constraint:
